@@ -1066,6 +1066,11 @@ MUTANTS = [
       "                success_t_names.add(t_ex.name)",
       "            if states.is_completed(t_ex.state):\n"
       "                success_t_names.add(t_ex.name)"),
+    m('C07-paused-item-not-counted-as-started', 'C07', ['R10'],
+      E + 'tasks.py',
+      "        f = lambda x: x.accepted or not states.is_completed(x.state)",
+      "        f = lambda x: (x.accepted or states.is_running(x.state) or\n"
+      "                       states.is_idle(x.state))"),
 ]
 
 
@@ -1243,13 +1248,11 @@ REFACTORS = [
       "        if break_triggered or stop_continue_flag:\n"
       "            return\n"),
     r('C07-ref-start-index-comprehension', 'C07', E + 'tasks.py',
-      "        f = lambda x: (\n            x.accepted or\n"
-      "            states.is_running(x.state) or\n"
-      "            states.is_idle(x.state)\n        )\n\n"
-      "        return len(list(filter(f, self.task_ex.executions)))",
+      "        f = lambda x: x.accepted or not states.is_completed(x.state)"
+      "\n\n        return len(list(filter(f, self.task_ex.executions)))",
       "        return len([x for x in self.task_ex.executions\n"
-      "                    if x.accepted or x.state in (states.RUNNING, "
-      "states.RUNNING_DELAYED, states.IDLE)])"),
+      "                    if x.accepted or x.state not in ("
+      "states.SUCCESS, states.ERROR, states.CANCELLED, states.SKIPPED)])"),
     r('C09-ref-resolution-equal-first', 'C09', E + 'utils.py',
       "    if parent_wf_name != parent_wf_spec_name:",
       "    if not parent_wf_name == parent_wf_spec_name:"),
